@@ -47,12 +47,14 @@ theorem cePovm_bystander (l : Layout) (c : Nat) (T : List Nat) (b : Block) (hb :
     · exact combine_bystander l c T b hb hm
     · exact hb
 
-theorem actResize_bystander (l : Layout) (f : Nat) (b : Block) (hb : b ∈ l) (hf : f ∉ b.members) :
-    b ∈ actResize l f := by
+theorem actResize_bystander (l : Layout) (f : Nat) (shrink : Bool) (b : Block) (hb : b ∈ l) (hf : f ∉ b.members) :
+    b ∈ actResize l f shrink := by
   unfold actResize
   split
   · exact reorder_bystander l _ [f] b hb (by rw [meets_singleton]; simpa using hf)
-  · exact hb
+  · split
+    · exact envOrder_bystander l [f] b hb (by simp) (by rw [meets_singleton]; simpa using hf)
+    · exact hb
 
 theorem actMeasure_bystander (l : Layout) (M surv : List Nat) (b : Block) (hb : b ∈ l)
     (hne : b.members ≠ []) (hm : ∀ x ∈ b.members, x ∉ M) : b ∈ actMeasure l M surv := by
